@@ -14,6 +14,7 @@ import numpy as np
 import common
 import games
 import translate
+import translate_ids
 
 RULE = ("operators: every coalition id a < 2^n for n = 1..10 with every player p < n (object operators &,|,-,+,in with a "
         "player, inverted, grand_coalition, player_to_coalition) and every ordered pair (a,b) < 2^n for n <= 5 (quick) / "
@@ -30,6 +31,10 @@ RULE = ("operators: every coalition id a < 2^n for n = 1..10 with every player p
 TRUSTED = [
     "harness/translate.py (ast-based, fail-closed) maps coalitions.py expressions to Z terms: & | ^ ~ - + == 2**k; "
     "Python int = Z; its output gen/CoalitionGen.v is what gen/CoalitionGenProps.v proves about",
+    "harness/translate_ids.py (ast-based, fail-closed) maps coalition_ids.py to terms over theories/NpArr.v (hand-written "
+    "meaning of np.arange, 2**a, & | ^ with a scalar, != 0, == scalar, boolean-mask indexing, .sum(), np.max(initial=), "
+    "assert = None); its output gen/CoalitionIdsGen.v is proved equal to the Enum.v id-array model in "
+    "gen/CoalitionIdsGenProps.v; int32 wrap-around is outside (ids < 2^31)",
     "models of the loops (players, __len__, from_players, get_sub/super_coalitions, coalition_ids.*, predicates): "
     "theories/Enum.v, Preds.v, hand-written loop for loop; tie = correspondence on every run",
     "itertools.combinations / chain order modelled by theories/Combs.v (checked by correspondence on every run)",
@@ -49,6 +54,7 @@ DEFAULT_TOL = 1e-10
 
 def regen(ctx):
     translate.regen_all()
+    translate_ids.regen_coalition_ids()
 
 
 def viol(ctx, what, rep, found_input=True):
